@@ -65,8 +65,8 @@ def convert(ex, ins):
         if etd['k'] == 'basic' and etd['name'] in ('int32', 'rune'):
             arr = new_ref(ex, ins['n'] + '$arr')
             hn, hs = vc.elem_heap('Int')
-            ex.st.set(hn, vc.define(hn, hs, '(store %s %s (str.runes %s))' % (ex.st.get(hn, hs), arr, x.term)))
-            n = '(str.rlen %s)' % x.term
+            ex.st.set(hn, vc.define(hn, hs, '(store %s %s (gs.runes %s))' % (ex.st.get(hn, hs), arr, x.term)))
+            n = '(gs.rlen %s)' % x.term
             vc.assume('(and (<= 0 %s) (<= %s %d))' % (n, n, MAXLEN), ex.reach)
             ex.setv(ins, V('(mkslice %s 0 %s %s)' % (arr, n, n), 'Slice', tts))
             return
@@ -75,14 +75,14 @@ def convert(ex, ins):
         etd = prog.under(ftd['elem'])
         if etd['k'] == 'basic' and etd['name'] in ('int32', 'rune'):
             hn, hs = vc.elem_heap('Int')
-            f = vc.ufun('str.fromrunes', ['Arr:Int', 'Int', 'Int'], 'Str')
+            f = vc.ufun('gs.fromrunes', ['Arr:Int', 'Int', 'Int'], 'Str')
             t = '(%s (select %s (s.arr %s)) (s.off %s) (s.len %s))' % (f, ex.st.get(hn, hs), x.term, x.term, x.term)
             ex.setv(ins, V(t, 'Str', tts))
             need_fromrunes(vc)
             return
         raise Unsupported('[]%s to string' % etd.get('name'))
     if fs == 'Int' and ts == 'Str':
-        f = vc.ufun('str.fromrune', ['Int'], 'Str')
+        f = vc.ufun('gs.fromrune', ['Int'], 'Str')
         need_fromrune(vc)
         ex.setv(ins, V('(%s (fixrune %s))' % (f, x.term), 'Str', tts))
         return
@@ -96,17 +96,17 @@ def need_fromrune(vc):
     if getattr(vc, '_fromrune', False):
         return
     vc._fromrune = True
-    f = vc.ufun('str.fromrune', ['Int'], 'Str')
-    vc.quant_axioms.append('(forall ((r Int)) (! (and (= (str.rlen (%s r)) 1) (= (str.at (%s r) 0) r)) :pattern ((%s r))))' % (f, f, f))
+    f = vc.ufun('gs.fromrune', ['Int'], 'Str')
+    vc.quant_axioms.append('(forall ((r Int)) (! (and (= (gs.rlen (%s r)) 1) (= (gs.at (%s r) 0) r)) :pattern ((%s r))))' % (f, f, f))
 
 
 def need_fromrunes(vc):
     if getattr(vc, '_fromrunes', False):
         return
     vc._fromrunes = True
-    f = vc.ufun('str.fromrunes', ['Arr:Int', 'Int', 'Int'], 'Str')
-    vc.quant_axioms.append('(forall ((a (Array Int Int)) (o Int) (n Int)) (! (=> (>= n 0) (= (str.rlen (%s a o n)) n)) :pattern ((%s a o n))))' % (f, f))
-    vc.quant_axioms.append('(forall ((a (Array Int Int)) (o Int) (n Int) (i Int)) (! (=> (and (<= 0 i) (< i n)) (= (str.at (%s a o n) i) (fixrune (select a (+ o i))))) :pattern ((str.at (%s a o n) i))))' % (f, f))
+    f = vc.ufun('gs.fromrunes', ['Arr:Int', 'Int', 'Int'], 'Str')
+    vc.quant_axioms.append('(forall ((a (Array Int Int)) (o Int) (n Int)) (! (=> (>= n 0) (= (gs.rlen (%s a o n)) n)) :pattern ((%s a o n))))' % (f, f))
+    vc.quant_axioms.append('(forall ((a (Array Int Int)) (o Int) (n Int) (i Int)) (! (=> (and (<= 0 i) (< i n)) (= (gs.at (%s a o n) i) (fixrune (select a (+ o i))))) :pattern ((gs.at (%s a o n) i))))' % (f, f))
 
 
 # ---- slices ------------------------------------------------------------------------------------------
@@ -146,10 +146,10 @@ def slice_expr(ex, ins):
 
 def substring(ex, ins, x, lo, hi):
     vc = ex.vc
-    f = vc.ufun('str.bytesub', ['Str', 'Int', 'Int'], 'Str')
+    f = vc.ufun('gs.bytesub', ['Str', 'Int', 'Int'], 'Str')
     lo_t = lo.term if lo else '0'
-    hi_t = hi.term if hi else '(str.blen %s)' % x.term
-    cond = '(and (<= 0 %s) (<= %s %s) (<= %s (str.blen %s)))' % (lo_t, lo_t, hi_t, hi_t, x.term)
+    hi_t = hi.term if hi else '(gs.blen %s)' % x.term
+    cond = '(and (<= 0 %s) (<= %s %s) (<= %s (gs.blen %s)))' % (lo_t, lo_t, hi_t, hi_t, x.term)
     ex.oblige('bounds', 'substring bounds in range', ex.reach, cond, ['C03'], ins.get('line', 0))
     vc.assume(cond, ex.reach)
     ex.setv(ins, V('(%s %s %s %s)' % (f, x.term, lo_t, hi_t), 'Str', ins['t']))
@@ -175,9 +175,9 @@ def index_value(ex, ins):
     i = ex.val(ins['index'])
     if x.sort == 'Str':
         # byte indexing of a string
-        ex.oblige('bounds', 'string index in range', ex.reach, '(and (<= 0 %s) (< %s (str.blen %s)))' % (i.term, i.term, x.term), ['C03'], ins.get('line', 0))
-        vc.assume('(and (<= 0 %s) (< %s (str.blen %s)))' % (i.term, i.term, x.term), ex.reach)
-        f = vc.ufun('str.byteat', ['Str', 'Int'], 'Int')
+        ex.oblige('bounds', 'string index in range', ex.reach, '(and (<= 0 %s) (< %s (gs.blen %s)))' % (i.term, i.term, x.term), ['C03'], ins.get('line', 0))
+        vc.assume('(and (<= 0 %s) (< %s (gs.blen %s)))' % (i.term, i.term, x.term), ex.reach)
+        f = vc.ufun('gs.byteat', ['Str', 'Int'], 'Int')
         ex.setv(ins, V('(%s %s %s)' % (f, x.term, i.term), 'Int', ins['t']))
         vc.range_assume(ex.vals[ins['n']], ex.reach)
         return
@@ -266,8 +266,8 @@ def builtin(ex, ins, name):
         if x.sort == 'Slice':
             t = '(s.len %s)' % x.term
         elif x.sort == 'Str':
-            t = '(str.blen %s)' % x.term
-            vc.assume('(and (<= 0 %s) (<= %s %d) (<= (str.rlen %s) %s) (<= 0 (str.rlen %s)) (<= %s (* 4 (str.rlen %s))))' % (t, t, MAXLEN, x.term, t, x.term, t, x.term), ex.reach)
+            t = '(gs.blen %s)' % x.term
+            vc.assume('(and (<= 0 %s) (<= %s %d) (<= (gs.rlen %s) %s) (<= 0 (gs.rlen %s)) (<= %s (* 4 (gs.rlen %s))))' % (t, t, MAXLEN, x.term, t, x.term, t, x.term), ex.reach)
         else:
             f = vc.ufun('map.len', ['Int'], 'Int')
             t = '(%s %s)' % (f, x.term)
@@ -338,17 +338,22 @@ def append(ex, ins, args):
             a_in = '(store %s (+ (s.off %s) %s %d) (select %s (+ (s.off %s) %d)))' % (a_in, s.term, ls, i, T, t.term, i)
         # fresh array: prefix copied from s, then t
         a_new = vc.declare(ex.nm(ins['n'] + '$fresh'), 'Arr:' + es)
-        vc.assume('(forall ((i Int)) (! (=> (and (<= 0 i) (< i %s)) (= (select %s i) (select %s (+ (s.off %s) i)))) :pattern ((select %s i))))'
-                  % (ls, a_new, A, s.term, a_new), ex.reach)
+        soff = '(s.off %s)' % s.term
+        vc.assume_forall(ex.reach, lambda i, a_new=a_new, A=A, ls=ls, soff=soff:
+                         '(=> (and (<= 0 %s) (< %s %s)) (= (select %s %s) (select %s (+ %s %s))))' % (i, i, ls, a_new, i, A, soff, i))
         for i in range(k):
             vc.assume('(= (select %s (+ %s %d)) (select %s (+ (s.off %s) %d)))' % (a_new, ls, i, T, t.term, i), ex.reach)
     else:
         a_in = vc.declare(ex.nm(ins['n'] + '$inpl'), 'Arr:' + es)
-        vc.assume('(forall ((i Int)) (! (= (select %s i) (ite (and (<= (+ (s.off %s) %s) i) (< i (+ (s.off %s) %s))) (select %s (+ (s.off %s) (- i (+ (s.off %s) %s)))) (select %s i))) :pattern ((select %s i))))'
-                  % (a_in, s.term, ls, s.term, n, T, t.term, s.term, ls, A, a_in), ex.reach)
+        soff = '(s.off %s)' % s.term
+        toff = '(s.off %s)' % t.term
+        vc.assume_forall(ex.reach, lambda i, a_in=a_in, A=A, T=T, ls=ls, n=n, soff=soff, toff=toff:
+                         '(= (select %s %s) (ite (and (<= (+ %s %s) %s) (< %s (+ %s %s))) (select %s (+ %s (- %s (+ %s %s)))) (select %s %s)))'
+                         % (a_in, i, soff, ls, i, i, soff, n, T, toff, i, soff, ls, A, i))
         a_new = vc.declare(ex.nm(ins['n'] + '$fresh'), 'Arr:' + es)
-        vc.assume('(forall ((i Int)) (! (=> (and (<= 0 i) (< i %s)) (= (select %s i) (ite (< i %s) (select %s (+ (s.off %s) i)) (select %s (+ (s.off %s) (- i %s)))))) :pattern ((select %s i))))'
-                  % (n, a_new, ls, A, s.term, T, t.term, ls, a_new), ex.reach)
+        vc.assume_forall(ex.reach, lambda i, a_new=a_new, A=A, T=T, ls=ls, n=n, soff=soff, toff=toff:
+                         '(=> (and (<= 0 %s) (< %s %s)) (= (select %s %s) (ite (< %s %s) (select %s (+ %s %s)) (select %s (+ %s (- %s %s))))))'
+                         % (i, i, n, a_new, i, i, ls, A, soff, i, T, toff, i, ls))
     E2 = ite(inplace, '(store %s (s.arr %s) %s)' % (E, s.term, a_in), '(store %s %s %s)' % (E, newarr, a_new))
     ex.st.set(hn, vc.define(hn, hs, E2))
     res = ite(inplace, '(mkslice (s.arr %s) (s.off %s) %s (s.cap %s))' % (s.term, s.term, n, s.term),
